@@ -95,6 +95,7 @@ func (b *BFS[S]) Run() (states, transitions int64, depth int, exhausted bool) {
 			c.AddTrans(1)
 			c.AddTraces(1)
 			c.Eval(1)
+			c.Outcome("event:" + b.EventName(e))
 			keys[i] = b.Key(s)
 			results[i] = &bfsNode{hist: nh}
 		})
